@@ -2,6 +2,7 @@
 # tools_seed.sh <prop> <n> <srcdir>: confirm a candidate mutant (demo passes without / fails with; suite unchanged) and store it under seeded/
 PROP="$1"; N="$2"; SRC="$3"
 ID="${PROP}-m${N}"
+mkdir -p /tmp/scr
 D=$(mktemp -d /tmp/scr/seedXXXXXX)
 git -C /repo worktree add -q --detach "$D" HEAD
 cp "$SRC/demo$N.py" "$D/demo_seed.py"
